@@ -93,8 +93,11 @@ func (cs C13Case) bytes() []byte {
 func C13WorkerMain() {
 	ctl := os.NewFile(3, "ctl")
 	in := bufio.NewReaderSize(os.Stdin, 1<<20)
-	dir, _ := os.MkdirTemp("", "verif-c13w-")
-	defer os.RemoveAll(dir)
+	dir := os.Getenv("VERIF_C13W_DIR") // made and removed by the parent (this process may be killed)
+	if dir == "" {
+		dir, _ = os.MkdirTemp("", "verif-c13w-")
+		defer os.RemoveAll(dir)
+	}
 	go func() { // runaway allocation guard
 		var ms runtime.MemStats
 		for {
@@ -139,6 +142,7 @@ func C13WorkerMain() {
 }
 
 type c13Worker struct {
+	dir   string // scratch directory of the child, removed in kill()
 	cmd   *exec.Cmd
 	stdin io.WriteCloser
 	ctl   *bufio.Reader
@@ -148,8 +152,14 @@ type c13Worker struct {
 func startC13Worker() (*c13Worker, error) {
 	self, _ := os.Executable()
 	cmd := exec.Command(self, "c13worker")
+	dir, err := os.MkdirTemp("", "verif-c13w-")
+	if err != nil {
+		return nil, err
+	}
+	cmd.Env = append(os.Environ(), "VERIF_C13W_DIR="+dir)
 	r, w, err := os.Pipe()
 	if err != nil {
+		os.RemoveAll(dir)
 		return nil, err
 	}
 	cmd.ExtraFiles = []*os.File{w}
@@ -160,10 +170,11 @@ func startC13Worker() (*c13Worker, error) {
 		return nil, err
 	}
 	if err := cmd.Start(); err != nil {
+		os.RemoveAll(dir)
 		return nil, err
 	}
 	w.Close()
-	wk := &c13Worker{cmd: cmd, stdin: stdin, ctl: bufio.NewReader(r), lines: make(chan string, 16)}
+	wk := &c13Worker{dir: dir, cmd: cmd, stdin: stdin, ctl: bufio.NewReader(r), lines: make(chan string, 16)}
 	go func() {
 		for {
 			l, err := wk.ctl.ReadString('\n')
@@ -182,6 +193,7 @@ func (w *c13Worker) kill() {
 	w.stdin.Close()
 	w.cmd.Process.Kill()
 	w.cmd.Wait()
+	os.RemoveAll(w.dir)
 }
 
 // eval sends one input; returns status ("SSS".."FFF"), or hung mode / died.
